@@ -22,6 +22,13 @@ def _load(t):
     return t2
 
 
+def _safe_eq(x, y):
+    try:
+        return bool(x == y)
+    except Exception:
+        return False
+
+
 def header_text(node):
     if isinstance(node, ast.For):
         return f"for {ast.unparse(node.target)} in {ast.unparse(node.iter)}"
@@ -759,6 +766,12 @@ class StmtMixin:
                 m.alloc = z3.If(sel, a.alloc if a.alloc is not None else a0, b.alloc if b.alloc is not None else a0)
         else:
             m.alloc = a.alloc if z3.eq(a.alloc, b.alloc) else z3.If(sel, a.alloc, b.alloc)
+        for k in set(a.pyheap) | set(b.pyheap):
+            va, vb = a.pyheap.get(k), b.pyheap.get(k)
+            if va is not None and vb is not None and (va is vb or (va.is_py and vb.is_py and _safe_eq(va.py, vb.py))):
+                m.pyheap[k] = va
+            else:
+                return None  # python-level field differs between the branches: keep the paths apart
         m.escaped = a.escaped | b.escaped
         m.ghost = dict(a.ghost)
         # keep the branch-local facts as implications
